@@ -1077,7 +1077,9 @@ fn assumptions() -> Vec<&'static str> {
         "the list model (DESIGN Appendix E) and the reference segmenter (Appendix F) are the oracle; where the property text is silent (placement of an appended field relative to trailing comments, formatting of a renamed field) every placement consistent with the list semantics is accepted",
         "one relaxation: a previously unterminated last line may gain its newline when something is appended after it",
         "start states whose reference reading differs from the implementation's reading are skipped (that is C03, not claimed)",
-        "empty values and whitespace-only lines are outside the stated domain and are not generated",
+        "operand values are LF-joined non-empty lines that do not start with whitespace; whitespace-only lines and a CR inside an operand line are outside the stated domain (CR ends a line in this format) and are not generated; fields with nothing after the colon occur in start states only",
+        "a paragraph emptied of all its fields has no text form: while one exists the re-read clauses are suspended and it is dropped from the model at the next restart (content and locality clauses stay on)",
+        "start states: the empty document, generated text (strict reader), programmatic build from pairs, FromIterator over separately parsed paragraphs (some without final newline), and the result of wrap_and_sort on comment-free documents (what wrap_and_sort does to comments is C07)",
     ]
 }
 
